@@ -100,6 +100,8 @@ impl InnerWalWriter {
             "Rotating WAL log file"
         );
         self.flush_and_close()?;
+        #[cfg(sneldb_verif)]
+        crate::verif::point("wal.closed_old");
         self.current_log_id += 1;
         self.start_next_log_file()
     }
@@ -128,6 +130,8 @@ impl InnerWalWriter {
             }
 
             self.entries_written += 1;
+            #[cfg(sneldb_verif)]
+            crate::verif::point("wal.appended");
             debug!(
                 target: "inner_wal_writer::append_immediate",
                 timestamp = entry.timestamp, total = self.entries_written,
